@@ -5,7 +5,7 @@ import re
 from ..pycalls import CallGraph
 from ..pycfg import CFG, walk_no_nested, contained, handler_reraises, enclosing_trys, broad_handler
 from ..pyflow import Taint
-from ..source import AnalysisError, find_function, first_line, src, functions, qualname, enclosing_function
+from ..source import atoms, atom_key, side, truth as cond_truth, AnalysisError, find_function, first_line, src, functions, qualname, enclosing_function
 from . import C13
 from .. import rails, colang2
 
@@ -460,7 +460,22 @@ def b_generated_value_types(ctx):
                     for x in ([k.args[1]] if not isinstance(k.args[1], ast.Tuple) else k.args[1].elts):
                         accepted.add(src(x))
             extra = sorted(a for a in accepted if a not in handled)
-            last = vf.body[-1]
+            # default = what the validator returns for a value that is an instance of none of the tested types (follow the sides taken when every atomic test is false)
+            def _default(stmts):
+                for st_ in stmts:
+                    if isinstance(st_, ast.Return):
+                        return st_
+                    if isinstance(st_, ast.If):
+                        v_ = cond_truth(st_.test, {(lambda e: True): False})     # a value that passes none of the validator's tests
+                        if v_ is None:
+                            return None
+                        r_ = _default(side(st_, v_))
+                        if r_ is not None:
+                            return r_
+                    elif isinstance(st_, (ast.For, ast.While, ast.Try, ast.With)):
+                        return None
+                return None
+            last = _default(vf.body)
             default_reject = isinstance(last, ast.Return) and isinstance(last.value, ast.Constant) and last.value.value is False
             ctx.check("C17.b.generated-value-types", GEN2, vn, "accepted types are encodable", not extra and default_reject,
                       "validator accepts %s, all handled by encode_to_dict (%d handled types), and rejects everything else" % (sorted(accepted), len(handled)) if not extra and default_reject else
@@ -615,9 +630,9 @@ def _escaped_chars(fn):
     (`(^|[^\\\\])('|")` - "unless already escaped") is not unconditional and does not count."""
     out = set()
     for n in ast.walk(fn):
-        if isinstance(n, ast.Compare) and len(n.ops) == 1 and isinstance(n.ops[0], ast.In) and isinstance(n.comparators[0], ast.Constant) and isinstance(n.comparators[0].value, str):
+        if isinstance(n, ast.Compare) and len(n.ops) == 1 and isinstance(n.ops[0], (ast.In, ast.NotIn)) and isinstance(n.comparators[0], ast.Constant) and isinstance(n.comparators[0].value, str):
             out |= set(n.comparators[0].value)
-        if isinstance(n, ast.Compare) and len(n.ops) == 1 and isinstance(n.ops[0], ast.In) and isinstance(n.comparators[0], (ast.Set, ast.Tuple, ast.List)):
+        if isinstance(n, ast.Compare) and len(n.ops) == 1 and isinstance(n.ops[0], (ast.In, ast.NotIn)) and isinstance(n.comparators[0], (ast.Set, ast.Tuple, ast.List)):
             out |= {e.value for e in n.comparators[0].elts if isinstance(e, ast.Constant) and isinstance(e.value, str) and len(e.value) == 1}
         if isinstance(n, ast.Call) and isinstance(n.func, ast.Attribute) and n.func.attr == "replace" and n.args and isinstance(n.args[0], ast.Constant) \
                 and isinstance(n.args[0].value, str) and len(n.args[0].value) == 1:
@@ -741,7 +756,7 @@ def b_guards_live(ctx):
                     continue
                 n += 1
                 live = _may_return_none(callee)
-                ctx.check("C17.b.guard-live", rel, qualname(fn), "%s  ->  %s" % (first_line(d, 50), first_line(g, 40)), live,
+                ctx.check("C17.b.guard-live", rel, qualname(fn), "result of %s() tested `is None` to reject the completion" % callee.name, live,
                           "`%s` can return None, so the rejection of a completion without that part is reachable" % callee.name if live else
                           "`%s` never returns None (it returns an empty string when the part is missing), so `%s` is dead: a completion without that part is not rejected, an empty flow body is "
                           "generated, it does not parse, and the turn ends with an empty reply" % (callee.name, first_line(g, 40)), line=g.lineno)
